@@ -841,20 +841,44 @@ func (f *Frugal) UnderlyingType(t *Type) *Type {
 	if t == nil {
 		panic("Attempted to get underlying type of nil type")
 	}
-	typedefIndex := f.typedefIndex
-	include := t.IncludeName()
-	if include != "" {
+	if include := t.IncludeName(); include != "" {
 		parsed, ok := f.ParsedIncludes[include]
 		if !ok {
 			return t
 		}
-		typedefIndex = parsed.typedefIndex
+		if typedef, ok := parsed.typedefIndex[t.ParamName()]; ok {
+			// The target of the typedef is named relative to the included
+			// file: resolve it there and name the result as seen from here.
+			return qualifyType(parsed.UnderlyingType(typedef.Type), include)
+		}
+		return t
 	}
-	if typedef, ok := typedefIndex[t.ParamName()]; ok {
+	if typedef, ok := f.typedefIndex[t.ParamName()]; ok {
 		// Recursively call underlying type to handle typedef nesting.
 		return f.UnderlyingType(typedef.Type)
 	}
 	return t
+}
+
+// qualifyType returns the given type, which is named relative to the given
+// include, as it is named from the including file.
+func qualifyType(t *Type, include string) *Type {
+	if t == nil || t.IsPrimitive() {
+		return t
+	}
+	if t.IsContainer() {
+		qualified := *t
+		qualified.KeyType = qualifyType(t.KeyType, include)
+		qualified.ValueType = qualifyType(t.ValueType, include)
+		return &qualified
+	}
+	if t.IncludeName() != "" {
+		// Declared in a file the including file may not include itself.
+		return t
+	}
+	qualified := *t
+	qualified.Name = include + "." + t.Name
+	return &qualified
 }
 
 // ConstantFromField returns a new Constant from the given Field and value.
